@@ -176,6 +176,7 @@ COLL_COMPS = {
     "s_has": DH, "s_len": AI,                    # set
     "t_len": AI, "t_item": LI,                   # tuple (immutable)
     "w_dict": AB,                                # ghost: dicts written by the current activation
+    "mycalls": VI,                               # ghost: opaque calls made by the current activation, per callee
 }
 
 
